@@ -19,6 +19,7 @@ func c09(c *Ctx) {
 	defer c.truncationIsAnError()
 	defer c09pathAgreement(c)
 	defer c09deleteAll(c)
+	defer c09releaseRechecksUnderLock(c)
 	defer c.hashIsOfInput()
 	P, R := c.P, c.R
 	R.Explain("R09.1", "T-GUARDED/T-PAIR: in WriteControlledStore.Get/Set/Delete the call into the wrapped store is dominated by acquireSyncRef(id) for the same id and by RLock (Get) / Lock (Set, Delete) on that entry's lock, with the unlock and releaseSyncRef deferred; only the two *Unchecked methods bypass it.")
@@ -893,4 +894,78 @@ func c09deleteAll(c *Ctx) {
 		}
 	}
 	R.Min("R09.10", "loops over id lists in Delete methods of package store", n, 2)
+}
+
+// c09releaseRechecksUnderLock (R09.11): an entry leaves the lock table only on a count read under the table lock.
+func c09releaseRechecksUnderLock(c *Ctx) {
+	P, R := c.P, c.R
+	R.Explain("R09.11", "no lock entry is recycled while in use: in package store every delete from WriteControlledStore.entryTable, and every return of a syncRef to the pool (sync.Pool.Put), is dominated by a branch on the entry's reference counter read *while WriteControlledStore.lock is held* (atomic load/add executed in the locked region).  The decrement that reaches zero happens outside the table lock; between it and taking the lock another goroutine can re-acquire the same entry, so acting on the earlier read hands two different locks to a reader and a writer of one id and a Get sees a half-written file.")
+	counterFld := c.fieldOf("store", "syncRef", "counter")
+	tableFld := c.fieldOf("store", "WriteControlledStore", "entryTable")
+	n := 0
+	for _, f := range c.funcsInPkg("store") {
+		held := engine.HeldAt(f)
+		// branches on a counter value read under the lock
+		type edge struct {
+			b  *ssa.BasicBlock
+			ok bool
+		}
+		var guards []*ssa.BasicBlock
+		for _, b := range f.Blocks {
+			iff := engine.IfOf(b)
+			if iff == nil {
+				continue
+			}
+			good := false
+			engine.Backward(iff.Cond, engine.FlowOpts{}, func(x ssa.Value) bool {
+				if bo, ok := x.(*ssa.BinOp); ok {
+					for _, op := range []ssa.Value{bo.X, bo.Y} {
+						if call, ok := op.(*ssa.Call); ok {
+							sc := call.Call.StaticCallee()
+							if sc != nil && engine.PkgPathOf(sc) == "sync/atomic" && len(call.Call.Args) > 0 && fieldAddrIs(call.Call.Args[0], counterFld) {
+								for l := range held(call) {
+									if strings.HasSuffix(l, ".lock") {
+										good = true
+									}
+								}
+							}
+						}
+					}
+				}
+				return true
+			})
+			if good {
+				guards = append(guards, b)
+			}
+		}
+		for _, cs := range engine.Calls(f) {
+			cc := cs.Common()
+			isDel := false
+			if bi, ok := cc.Value.(*ssa.Builtin); ok && bi.Name() == "delete" && len(cc.Args) > 0 {
+				if ld, ok := cc.Args[0].(*ssa.UnOp); ok && fieldAddrIs(ld.X, tableFld) {
+					isDel = true
+				}
+			}
+			isPut := false
+			if sc := cc.StaticCallee(); sc != nil && engine.PkgPathOf(sc) == "sync" && sc.Name() == "Put" {
+				isPut = true
+			}
+			if !isDel && !isPut {
+				continue
+			}
+			n++
+			ok := false
+			for _, g := range guards {
+				if engine.EdgeDominates(g, 0, cs.Instr.Block()) || engine.EdgeDominates(g, 1, cs.Instr.Block()) {
+					ok = true
+				}
+			}
+			what := "delete from entryTable"
+			if isPut {
+				what = "return of the entry to the pool"
+			}
+			R.Check(ok, "R09.11", c.name(f)+"|"+what, P.Pos(cs.Pos()), "decided by a counter read under the table lock", "the "+what+" is not guarded by a reference-count read made while WriteControlledStore.lock is held: an entry that was re-acquired between the decrement and the lock is recycled while in use")
+		}
+	}
+	R.Min("R09.11", "recycling steps (table delete / pool put)", n, 2)
 }
